@@ -141,6 +141,29 @@ def run(tier, seed):
     trace, rej = run_and_validate(chk, behaviours + short, "disk")
     mem = behaviours[: (60 if tier == "quick" else 600)]
     run_and_validate(chk, mem, "memory", memory=True)
+    # The follow-ups of committed changes on the real daemon: behaviours in
+    # which the change commits while the scheduler thread is still running
+    # the task it has to leave in the queue, executed on a real in-process
+    # Krill and validated against KrillTrace.tla (the projected queue must
+    # hold the follow-up after the change; at the next settle point what is
+    # served is the repository content).
+    import copy as _copy
+    from checks import krill_common as kc
+    vlib.build_harness("harness")
+    holds = []
+    for d in kc.HOLD_DIRECTED:
+        b = _copy.deepcopy(d)
+        b.setdefault("top", ["p1", "p2", "a1"])
+        b["id"] = len(holds)
+        kc.add_timing(b)
+        holds.append(b)
+    ktrace, krej = kc.run_and_validate(chk, PID, holds, "hold")
+    held = sum(1 for e in ktrace if e.get("held"))
+    released = sum(1 for e in ktrace if e.get("ev") == "Release")
+    if (held < len(holds) or released < len(holds)) and not chk.violations:
+        raise vlib.ToolError("the held-task behaviours did not hold a task "
+                             f"each ({held} held, {released} released)")
+    chk.cov["held_task_behaviours"] = len(holds)
     if not rej:
         self_test(chk, trace)
     chk.cov["rule"] = (
